@@ -186,3 +186,39 @@ func Harness_C18_blacklist_sweep_race() {
 	verif_Assert("C18.sweep.expired_address_allowed", okA)
 	verif_Cover("C18.sweep.done")
 }
+
+// A blacklist entry outlives the process that added it: a second manager over the same store (the
+// server restarted, or another node) refuses the same addresses - for an exact entry and for a
+// range alike - until the entry's own expiry.
+func Harness_C18_blacklist_reload() {
+	now := c18Base
+	verif_ClockSet(now)
+	ctx, stop := context.WithCancel(context.Background())
+	defer stop()
+	st := memory.New(ctx)
+	m1 := &IPManager{storage: st, blacklist: make(map[string]*IPRecord), whitelist: make(map[string]*IPRecord)}
+	entry := []string{"10.0.0.7", "10.0.0.0/24", "10.0.0.0/8"}[verif_Choose(3)]
+	d := int64(0) // permanent
+	if verif_Bool() {
+		d = int64(verif_Byte()) + 1
+	}
+	verif_Assert("C18.reload.add", m1.AddToBlacklist(entry, time.Duration(d), "r", "h") == nil)
+	ok1, _ := m1.IsAllowed("10.0.0.7")
+	verif_Assert("C18.reload.refused_by_adder", !ok1)
+	now += int64(verif_Byte())
+	verif_ClockSet(now)
+	if d != 0 {
+		verif_Assume(now != c18Base+d)
+	}
+	m2 := &IPManager{storage: st, blacklist: make(map[string]*IPRecord), whitelist: make(map[string]*IPRecord)}
+	verif_Assert("C18.reload.load", m2.loadFromStorage() == nil)
+	ok2, _ := m2.IsAllowed("10.0.0.7")
+	live := d == 0 || now < c18Base+d
+	verif_Assert("C18.reload.same_answer_after_reload", ok2 == !live)
+	okOther, _ := m2.IsAllowed("11.0.0.7")
+	verif_Assert("C18.reload.others_allowed", okOther)
+	if live {
+		verif_Cover("C18.reload.refused_after_reload")
+	}
+	verif_Cover("C18.reload.done")
+}
